@@ -415,6 +415,7 @@ class Expander:
             if modname.startswith("_fixture"):
                 continue
             inline_new_constants(m, self.modules)
+        bind_new_parameters(self.modules)
         for modname, m in self.modules.items():
             if modname.startswith("_fixture"):
                 continue
@@ -639,6 +640,111 @@ def inline_new_constants(m, modules=None) -> int:
     m.tree.body = new_body
     ast.fix_missing_locations(m.tree)
     return count[0]
+
+
+_KNOWN_SIGS = None
+
+
+def _is_literal_default(d) -> bool:
+    return isinstance(d, ast.Constant) or (isinstance(d, (ast.Tuple, ast.List, ast.Dict)) and not (getattr(d, "elts", None) or getattr(d, "keys", None))) \
+        or (isinstance(d, ast.UnaryOp) and isinstance(d.operand, ast.Constant))
+
+
+def bind_new_parameters(modules) -> int:
+    """Additive API: a reviewed function (sa/known_signatures.json) that has gained a parameter with a literal default, which
+    every call inside the package either omits or passes as that same default (literally, or by forwarding its own new
+    parameter of the same default), is analysed with the parameter bound to the default - the reviewed API, which is what the
+    properties are stated for. The forwarded arguments are dropped from the call sites. Anything else is left alone."""
+    global _KNOWN_SIGS
+    if _KNOWN_SIGS is None:
+        try:
+            with open(os.path.join(_HERE, "known_signatures.json")) as fh:
+                _KNOWN_SIGS = json.load(fh)
+        except OSError:
+            _KNOWN_SIGS = {}
+    # 1. candidates: (function node, qual, param, default, position or None)
+    cands = []
+    for modname, m in modules.items():
+        if modname.startswith("_fixture"):
+            continue
+        for node in m.tree.body:
+            defs = [(f"{modname}:{node.name}", node)] if isinstance(node, ast.FunctionDef) else \
+                [(f"{modname}:{node.name}.{s_.name}", s_) for s_ in node.body if isinstance(s_, ast.FunctionDef)] if isinstance(node, ast.ClassDef) else []
+            for qual, fn in defs:
+                old = _KNOWN_SIGS.get(qual)
+                if old is None or fn.args.vararg or fn.args.kwarg:
+                    continue
+                pos = fn.args.posonlyargs + fn.args.args
+                pdefs = [None] * (len(pos) - len(fn.args.defaults)) + list(fn.args.defaults)
+                for i_, (a, d) in enumerate(zip(pos, pdefs)):
+                    if a.arg not in old and d is not None and _is_literal_default(d) and all(b.arg not in old for b in pos[i_:]):      # new trailing positional-or-keyword parameter
+                        is_method = "." in qual.split(":")[1] and not any(ast.unparse(x) == "staticmethod" for x in fn.decorator_list)
+                        cands.append((fn, qual, a.arg, d, i_ - (1 if is_method else 0)))
+                for a, d in zip(fn.args.kwonlyargs, fn.args.kw_defaults):
+                    if a.arg not in old and d is not None and _is_literal_default(d):
+                        cands.append((fn, qual, a.arg, d, None))
+    if not cands:
+        return 0
+    by_name: Dict[str, list] = {}
+    for c in cands:
+        by_name.setdefault(c[0].name, []).append(c)
+    new_params_of = {}
+    for fn, qual, pn, d, posn in cands:
+        new_params_of.setdefault(id(fn), {})[pn] = d
+    # 2. every call by that name in the package passes the default (or forwards an own new parameter with the same default)
+    ok = {(id(c[0]), c[2]): True for c in cands}
+    sites = []
+    for modname, m in modules.items():
+        for fn_ in [n for n in ast.walk(m.tree) if isinstance(n, ast.FunctionDef)] + [m.tree]:
+            own = new_params_of.get(id(fn_), {})
+            nodes = ast.walk(fn_) if fn_ is not m.tree else iter([x for st in m.tree.body if not isinstance(st, (ast.FunctionDef, ast.ClassDef)) for x in ast.walk(st)])
+            for c in nodes:
+                if not isinstance(c, ast.Call):
+                    continue
+                nm = c.func.attr if isinstance(c.func, ast.Attribute) else (c.func.id if isinstance(c.func, ast.Name) else None)
+                for cand in by_name.get(nm, ()):
+                    fn, qual, pn, d, posn = cand
+                    passed = [k.value for k in c.keywords if k.arg == pn]
+                    if posn is not None and len(c.args) > posn and not any(isinstance(a_, ast.Starred) for a_ in c.args):
+                        passed.append(c.args[posn])
+                    if any(k.arg is None for k in c.keywords) or any(isinstance(a_, ast.Starred) for a_ in c.args):
+                        ok[(id(fn), pn)] = False
+                    for v in passed:
+                        same = ast.dump(v) == ast.dump(d) or (isinstance(v, ast.Name) and v.id in own and ast.dump(own[v.id]) == ast.dump(d))
+                        if not same:
+                            ok[(id(fn), pn)] = False
+                        else:
+                            sites.append((c, cand))
+    n = 0
+    for fn, qual, pn, d, posn in cands:
+        if not ok[(id(fn), pn)]:
+            continue
+        n += 1
+        stored = any(isinstance(x, ast.Name) and x.id == pn and isinstance(x.ctx, (ast.Store, ast.Del)) for st in fn.body for x in ast.walk(st))
+        nested = any(isinstance(x, (ast.FunctionDef, ast.Lambda)) and x is not fn for x in ast.walk(fn))
+        if stored or nested:
+            k = 1 if fn.body and isinstance(fn.body[0], ast.Expr) and isinstance(fn.body[0].value, ast.Constant) and isinstance(fn.body[0].value.value, str) else 0
+            st = ast.Assign(targets=[ast.Name(id=pn, ctx=ast.Store())], value=_clone(d))
+            ast.copy_location(st, fn.body[k] if len(fn.body) > k else fn)
+            ast.fix_missing_locations(st)
+            fn.body.insert(k, st)
+        else:
+            for node in [x for st in fn.body for x in ast.walk(st)]:
+                for f_, val in ast.iter_fields(node):
+                    if isinstance(val, ast.Name) and val.id == pn and isinstance(val.ctx, ast.Load):
+                        setattr(node, f_, ast.copy_location(_clone(d), val))
+                    elif isinstance(val, list):
+                        for i_, v in enumerate(val):
+                            if isinstance(v, ast.Name) and v.id == pn and isinstance(v.ctx, ast.Load):
+                                val[i_] = ast.copy_location(_clone(d), v)
+    # 3. drop the forwarded / explicit defaults at the call sites
+    for c, (fn, qual, pn, d, posn) in sites:
+        if not ok[(id(fn), pn)]:
+            continue
+        c.keywords = [k for k in c.keywords if k.arg != pn]
+        if posn is not None and len(c.args) == posn + 1:
+            c.args = c.args[:posn]
+    return n
 
 
 def split_chained_assignments(tree: ast.AST):
